@@ -71,7 +71,7 @@ class Contracts(Generic[F]):
     def _ensure_wrapped(cls: type[Contracts], func: F) -> Contracts[F]:
         contracts: Contracts
         contracts = getattr(func, ATTR, None)  # type: ignore[assignment]
-        if contracts is not None:
+        if contracts is not None and contracts.wrapped is func:
             return contracts
         contracts = cls(func)
         assert contracts is not None
